@@ -82,6 +82,16 @@ pub type Deps = OwnedDeps<MockStorage, MockApi, MockQuerier>;
 // ------------------------------------------------------------------------------------------------
 // What echo handlers call
 
+thread_local! { static BIRTHS: std::cell::Cell<u32> = const { std::cell::Cell::new(0) }; }
+/// The serial number of a contract value built by the parameterless constructor (1001, 1002, ...): the generated programs store it
+/// in the contract, handlers report it -- every call through a generated entry point must run on a value built for that call (C06).
+pub fn next_birth() -> u32 {
+    BIRTHS.with(|b| {
+        b.set(b.get() + 1);
+        1000 + b.get()
+    })
+}
+
 pub mod rec {
     use super::*;
     pub use crate::reply::{build_with, ctx_reply, ctx_reply_legacy, reply_proj, inst_data, reply_handler, result_full, result_text, Recv};
